@@ -303,6 +303,7 @@ type c10ctx struct {
 	mm   []int   // pattern on seq
 	pm   [][]int // pm[b] = sellers(seq[b:]) (lazy)
 	// reverse strand (full window only)
+	sfx64   string // key suffix for 64-symbol patterns, set by check() from the raw result of the search being judged
 	rcReady bool
 	mmr     []int // pattern on rc(seq)
 	pmr     []int // sellers on rc(seq)
@@ -377,7 +378,13 @@ func (c *c10ctx) violate(api string, cp *c10comp, class, suffix string, begin, l
 		mode = "/indel/"
 	}
 	if len(c.p.toks) >= c10MaxPatLen {
-		suffix += ":patlen=64"
+		// ":patlen=64" names ONE defect (the undefined shift '0x1L << patlen' that kills the three automata) and is kept
+		// for results that are what this defect produces; any other wrong answer of a 64-symbol pattern gets its own key
+		if c.sfx64 != "" {
+			suffix += c.sfx64
+		} else {
+			suffix += ":patlen=64"
+		}
 	}
 	key := api + mode + class + suffix
 	c10seen[key]++
@@ -389,6 +396,36 @@ func (c *c10ctx) violate(api string, cp *c10comp, class, suffix string, begin, l
 		string(c.seq), begin, length, fmt.Sprintf(format, a...))
 	c.r.Violate(key, desc, c10case{Part: c.part, Pat: c.p.src, E: cp.e, Indel: cp.indel, Seq: string(c.seq),
 		Begin: begin, Length: length, RC: rc, Hist: c.hist})
+}
+
+// c10sig64: what the known defect of 64-symbol patterns produces, and nothing else. With patlen = 64 the sentinel
+// '0x1L << patlen' is (on x86-64 / arm64, where the shift count is taken modulo 64) bit 0 instead of the non-existent bit 64:
+// ManberNoErr and ManberSub never report anything, ManberIndel with a budget >= 1 "finds" the pattern with one error at
+// every scanned position pos in [begin, scanEnd), pushed as start pos-63. A raw result of that shape keeps the known
+// suffix ":patlen=64"; any other wrong result is a different defect and gets a different key.
+const c10sfx64Known = ":patlen=64"
+const c10sfx64Other = ":patlen=64:result-is-not-what-the-shift-overflow-gives"
+
+func c10sig64(cp *c10comp, got [][3]int, begin, scanEnd int) string {
+	if !cp.indel || cp.e == 0 {
+		if len(got) == 0 {
+			return c10sfx64Known
+		}
+		return c10sfx64Other
+	}
+	n := scanEnd - begin
+	if n < 0 {
+		n = 0
+	}
+	if len(got) != n {
+		return c10sfx64Other
+	}
+	for i, h := range got {
+		if h[0] != begin+i-(c10MaxPatLen-1) || h[1] != begin+i+1 || h[2] != 1 {
+			return c10sfx64Other
+		}
+	}
+	return c10sfx64Known
 }
 
 // check runs every observation point of one compiled pattern on one window of the current sequence.
@@ -415,6 +452,7 @@ func (c *c10ctx) check(cp *c10comp, begin, length int, doRC bool) {
 	m := len(p.toks)
 	L := len(c.seq)
 	r.Eval(1)
+	c.sfx64 = ""
 	if cp.perr != nil {
 		c.violate("MakeApatPattern", cp, "rejects-valid-pattern", "", begin, length, false, "%v", cp.perr)
 		return
@@ -505,6 +543,20 @@ func (c *c10ctx) check(cp *c10comp, begin, length int, doRC bool) {
 	var got [][3]int
 	cls, msg := c10try(func() { got = cp.p.FindAllIndex(c.as, begin, length) })
 	r.Trans(1)
+	rawSfx64 := ""
+	if m >= c10MaxPatLen {
+		// the scan stops at begin+length+MAX_PAT_LEN or at the end of the sequence
+		rawSfx64 = c10sfx64Other
+		if cls == "" {
+			rawSfx64 = c10sig64(cp, got, eb, hiEnd)
+		}
+		if rawSfx64 == c10sfx64Known {
+			r.Count("patlen64_raw_result_is_the_shift_overflow_signature", 1)
+		} else {
+			r.Count("patlen64_raw_result_differs_from_the_signature", 1)
+		}
+		c.sfx64 = rawSfx64
+	}
 	rawOK := true // the derived observation points are judged only when the raw hit list they build on is right
 	if cls != "" {
 		c.violate("FindAllIndex", cp, cls, "", begin, length, false, "%s", msg)
@@ -557,11 +609,19 @@ func (c *c10ctx) check(cp *c10comp, begin, length int, doRC bool) {
 	var im bool
 	cls, msg = c10try(func() { im = cp.p.IsMatching(c.as, begin, length) })
 	r.Trans(1)
+	if m >= c10MaxPatLen { // IsMatching is its own search: known suffix only if its answer is the signature's
+		if want := cp.indel && cp.e > 0 && hiEnd > eb; cls != "" || im != want {
+			c.sfx64 = c10sfx64Other
+		} else {
+			c.sfx64 = c10sfx64Known
+		}
+	}
 	if cls != "" {
 		c.violate("IsMatching", cp, cls, "", begin, length, false, "%s", msg)
 	} else {
 		exist("IsMatching", im, "true")
 	}
+	c.sfx64 = rawSfx64 // FilterBestMatch, BestMatch, AllMatches are built on the raw hit list
 	if !rawOK {
 		r.Count("derived_checks_skipped_after_raw_failure", 1)
 		return
@@ -689,6 +749,12 @@ func (c *c10ctx) check(cp *c10comp, begin, length int, doRC bool) {
 		var rg [][3]int
 		cls, msg = c10try(func() { rg = cp.rc.FindAllIndex(c.as, 0, -1) })
 		r.Trans(1)
+		if m >= c10MaxPatLen {
+			c.sfx64 = c10sfx64Other
+			if cls == "" {
+				c.sfx64 = c10sig64(cp, rg, 0, L)
+			}
+		}
 		if cls != "" {
 			c.violate("RC.FindAllIndex", cp, cls, "", 0, -1, true, "%s", msg)
 			return
